@@ -22,14 +22,14 @@ META = {
             "StoredBlockIndex<Btc|Vbk|Alt> with their stored addons and PopState: decode(encode x ++ rest) = (x, rest) for "
             "every well-formed x; whatever decodes is well-formed; estimateSize x = |encode x|; re-encoding a decoded value "
             "decodes to the same value (value stability, not byte equality: the decoders accept non-canonical encodings); "
-            "canonical encodings are injective. Unconditional (c11_full) for 17 of them; for MerklePath, VbkTx, VbkPopTx, "
+            "canonical encodings are injective. Unconditional (c11_full) for 18 of them; for VbkTx, VbkPopTx, "
             "ATV, VTB, PopData under the explicit premise `fits` (see note). The executable model is extracted and compared "
             "with the rebuilt library on boundary-aimed values (encodings byte-identical, estimateSize equal) and on byte "
             "strings incl. hostile variants (decoded values identical); the implementation's own round-trip/size/hash "
             "oracle runs on every case.",
     "note": "Trusted: Coq kernel, extraction (ExtrOcamlBasic), OCaml driver incl. its sha256/base58 address check and the "
             "id-order canonicalisation of PopState, C++ harness, value text format, generators, tools/gen_consts.py "
-            "(cross-checked against the compiled headers on every run). _partial: for MerklePath/VbkTx/VbkPopTx/ATV/VTB/"
+            "(cross-checked against the compiled headers on every run). _partial: for VbkTx/VbkPopTx/ATV/VTB/"
             "PopData round trip and stability need `fits` (canonical size of each nested buffer within the limit of its "
             "length prefix); it is not implied by decodability (the decoder accepts shorter non-canonical encodings; "
             "MAX_PUBLICATIONDATA_SIZE is 6 bytes smaller than the largest canonical PublicationData). Not modelled: BFI "
